@@ -4,6 +4,7 @@ import (
 	"fmt"
 	"hash/fnv"
 	"math/rand"
+	"os"
 	"sync"
 	"sync/atomic"
 
@@ -350,17 +351,18 @@ func reasmPlan(quick bool) []reasmCfg {
 		return []reasmCfg{
 			{label: "reasm depth<=2 full alphabet Max in {1,2,64}", cfgs: "{<<1,2,1>>,<<2,2,1>>,<<64,2,0>>}", idRels: idsFull, kindRels: kindsBoth, ctls: "BOOLEAN", pays: paysFull, fins: finsAll, allEvery: 64, pairEvery: 8, nRandom: 3},
 			{label: "reasm depth 3 reduced alphabet Max=2", cfgs: "{<<2,3,0>>}", idRels: idsUp, kindRels: kindsBoth, ctls: "BOOLEAN", pays: "{<<0,1>>,<<1,1>>}", fins: `{"ioerr"}`, allEvery: 128, pairEvery: 16, nRandom: 2},
-			{label: "reasm depth<=2 Max in {4067,4068,4069}", cfgs: "{<<4067,2,1>>,<<4068,2,0>>,<<4069,2,0>>}", idRels: idsNoLs, kindRels: kindsBoth, ctls: "BOOLEAN", pays: paysEdge, fins: `{"eof","noprog"}`, allEvery: 1, pairEvery: 16, nRandom: 2},
+			{label: "reasm depth<=2 Max in {4067,4068,4069}", cfgs: "{<<4067,2,1>>,<<4068,2,0>>,<<4069,2,0>>}", idRels: idsNoLs, kindRels: kindsBoth, ctls: "{FALSE}", pays: paysEdge, fins: `{"eof","noprog"}`, allEvery: 1, pairEvery: 16, nRandom: 2},
 			{label: "reasm depth<=2 default Max (4 MiB)", cfgs: "{<<4194304,2,0>>}", idRels: `{"eq","hm"}`, kindRels: `{"same"}`, ctls: "{FALSE}", pays: paysEdge, fins: `{"eof"}`, allEvery: 1, light: true, workers: 8},
 		}
 	}
 	return []reasmCfg{
-		{label: "reasm depth<=3 full alphabet Max in {1,2}", cfgs: "{<<1,3,1>>,<<2,3,2>>}", idRels: idsFull, kindRels: kindsBoth, ctls: "BOOLEAN", pays: paysFull, fins: finsAll, allEvery: 48, nRandom: 4},
-		{label: "reasm depth<=2 wide id alphabet Max in {1,2,3,64}", cfgs: "{<<1,2,2>>,<<2,2,2>>,<<3,2,2>>,<<64,2,2>>}", idRels: idsWide, kindRels: kindsBoth, ctls: "BOOLEAN", pays: "{<<0,0>>,<<0,1>>,<<0,2>>,<<1,-1>>,<<1,0>>,<<1,1>>}", fins: finsAll, allEvery: 1, nRandom: 6},
-		{label: "reasm depth 3 Max=64", cfgs: "{<<64,3,1>>}", idRels: idsNoLs, kindRels: kindsBoth, ctls: "BOOLEAN", pays: paysFull, fins: finsAll, allEvery: 1, nRandom: 4},
-		{label: "reasm depth 4 reduced alphabet Max=2", cfgs: "{<<2,4,0>>}", idRels: idsUp, kindRels: kindsBoth, ctls: "BOOLEAN", pays: "{<<0,1>>,<<1,0>>}", fins: `{"ioerr"}`, allEvery: 256, nRandom: 3},
-		{label: "reasm depth<=3 Max in {4067,4068,4069}", cfgs: "{<<4067,3,1>>,<<4068,3,1>>,<<4069,3,1>>}", idRels: idsNoLs, kindRels: kindsBoth, ctls: "{FALSE}", pays: paysEdge, fins: finsAll, allEvery: 1, nRandom: 3},
-		{label: "reasm depth<=2 Max in {4067,4068,4069} with control", cfgs: "{<<4067,2,1>>,<<4068,2,1>>,<<4069,2,1>>}", idRels: idsFull, kindRels: kindsBoth, ctls: "BOOLEAN", pays: paysFull, fins: finsAll, allEvery: 1, nRandom: 6},
+		{label: "reasm depth<=3 full alphabet Max in {1,2}", cfgs: "{<<1,3,1>>,<<2,3,1>>}", idRels: idsFull, kindRels: kindsBoth, ctls: "BOOLEAN", pays: paysFull, fins: finsAll, allEvery: 128, pairEvery: 8, nRandom: 3},
+		{label: "reasm depth<=2 wide id alphabet Max in {1,2,3,64}", cfgs: "{<<1,2,1>>,<<2,2,1>>,<<3,2,1>>,<<64,2,1>>}", idRels: idsWide, kindRels: kindsBoth, ctls: "BOOLEAN", pays: "{<<0,0>>,<<0,1>>,<<0,2>>,<<1,-1>>,<<1,0>>,<<1,1>>}", fins: finsAll, allEvery: 2, pairEvery: 2, nRandom: 4},
+		{label: "reasm tails after <=2 frames, reduced alphabet, Max in {1,2,64}", cfgs: "{<<1,2,2>>,<<2,2,2>>,<<64,2,2>>}", idRels: idsUp, kindRels: `{"same"}`, ctls: "{FALSE}", pays: "{<<0,1>>}", fins: finsAll, allEvery: 1, pairEvery: 1, nRandom: 4},
+		{label: "reasm depth 3 Max=64", cfgs: "{<<64,3,1>>}", idRels: idsNoLs, kindRels: kindsBoth, ctls: "BOOLEAN", pays: paysFull, fins: finsAll, allEvery: 16, pairEvery: 16, nRandom: 3},
+		{label: "reasm depth 4 reduced alphabet Max=2", cfgs: "{<<2,4,0>>}", idRels: idsUp, kindRels: kindsBoth, ctls: "BOOLEAN", pays: "{<<0,1>>,<<1,0>>}", fins: `{"ioerr"}`, allEvery: 1024, pairEvery: 32, nRandom: 2},
+		{label: "reasm depth<=3 Max in {4067,4068,4069}", cfgs: "{<<4067,3,1>>,<<4068,3,0>>,<<4069,3,0>>}", idRels: idsNoLs, kindRels: kindsBoth, ctls: "{FALSE}", pays: paysEdge, fins: finsAll, allEvery: 1, pairEvery: 16, nRandom: 3},
+		{label: "reasm depth<=2 Max in {4067,4068,4069} with control", cfgs: "{<<4067,2,1>>,<<4068,2,1>>,<<4069,2,1>>}", idRels: idsFull, kindRels: kindsBoth, ctls: "BOOLEAN", pays: paysFull, fins: finsAll, allEvery: 1, pairEvery: 8, nRandom: 4},
 		{label: "reasm depth<=2 default Max (4 MiB)", cfgs: "{<<4194304,2,1>>}", idRels: idsUp, kindRels: `{"same"}`, ctls: "{FALSE}", pays: paysEdge, fins: `{"eof","ioerr"}`, allEvery: 1, light: true, workers: 8},
 	}
 }
@@ -392,6 +394,10 @@ func C09(c *vf.Ctx) {
 			e.nRandom = rc.nRandom
 		}
 		wireRun(c, rc.label, wc, rc.workers, e.record)
+		if fastFail(c) {
+			e.finish("")
+			return
+		}
 	}
 	// burst family: long regular sequences, fixed-size and coarse reads
 	wc := wireBase("burst")
@@ -541,6 +547,10 @@ func (e *wireEngine) burst(raw []byte, r *wRec) {
 		})
 	}
 }
+
+// fastFail: with VERIF_FAST_FAIL=1 (used when testing the check against mutants) a check
+// stops after the first stage that found a violation; the verdict is already decided then.
+func fastFail(c *vf.Ctx) bool { return os.Getenv("VERIF_FAST_FAIL") == "1" && c.Violations() > 0 }
 
 func init() {
 	All["C09"] = C09
